@@ -21,7 +21,8 @@ ID = "C06"
 RULE = ("generated packages with cross-module bases, star imports, __all__ re-exports (one re-exporter per object), explicit import "
         "cycles and consumer modules named to sort before/after the modules they depend on; real test packages in the thorough tier; "
         "x every reachable processing order (thorough: exhaustive when <= 120, else 64 evenly spaced; quick: exhaustive when <= 24, else 32). Non-trivial when >=2 orders exist in which some imported "
-        "module is processed after its importer; distinct by hash of the abstract project.")
+        "module is processed after its importer; distinct by hash of the abstract project. Plus an exhaustive family of 144 small projects in which an import cycle leaves a base unresolved "
+        "and the subclass is re-exported into a module that binds the base's name to a function, a constant, a module or nothing.")
 ASSUMPTIONS = [
     "objects re-exported by two modules are excluded from the re-export-location comparison (statement); the generator gives each object one re-exporter",
     "projects with import cycles: only bases / resolved bases / linearisation of classes are compared",
@@ -158,11 +159,34 @@ def real_cases() -> List[Dict[str, Any]]:
     return cases
 
 
+def cycshadow_cases() -> List[Dict[str, Any]]:
+    """An import cycle leaves the base of a class unresolved when its definition is visited; the class is then moved by a re-export into a
+    module that binds the base's name to something else (a factory function, a constant, an imported module) or not at all: the hierarchy
+    must come out the same in every order.  A small exhaustive family (shadow x form of the cycle x exported names x where and how the
+    re-exporter is called, which moves it in the order)."""
+    cases = []
+    for shadow in ('func', 'var', 'none', 'import'):
+        for cyc in ('from impl import child', 'import impl.child', 'from impl.child import Child'):
+            for exp_base in (True, False):
+                for apiname in ('api', 'zapi', 'aapi'):
+                    for where in ('root', 'inpkg'):
+                        sh = {'func': 'def Base():\n    QQQfactoryQQQ\n', 'var': 'Base = 1\n', 'none': '', 'import': 'from os import path as Base\n'}[shadow]
+                        allv = '__all__ = ["Child"%s]\n' % (', "Base"' if exp_base and shadow != 'none' else '')
+                        files = {'impl/__init__.py': '',
+                                 'impl/base.py': cyc + '\nclass Base:\n    QQQID:1QQQ\n    def hello(self):\n        QQQID:1.helloQQQ\n',
+                                 'impl/child.py': 'from impl.base import Base\nclass Child(Base):\n    QQQID:2QQQ\n    def hello(self):\n        pass\nclass Grand(Child):\n    QQQID:3QQQ\n',
+                                 ('' if where == 'root' else 'impl/') + apiname + '.py': 'from impl.child import Child\n' + sh + allv}
+                        cases.append({'kind': 'cycshadow', 'name': '%s/%s/%s/%s/%s' % (shadow, cyc, exp_base, apiname, where),
+                                      'files': {k: v.replace('QQQ', '"' * 3) for k, v in files.items()}})
+    return cases
+
+
 def plan(tier: str, seed: int, scale: float = 1.0) -> List[Any]:
     n = ncpu()
     total = int((800 if tier == "quick" else 6000) * scale)
     items: List[Any] = [{'kind': 'gen', 'n': max(1, total // n), 'seed': seed * 1000 + i} for i in range(n)]
     items.append({'kind': 'real'})
+    items.append({'kind': 'cycshadow'})
     return items
 
 
@@ -179,6 +203,16 @@ def work(item: Dict[str, Any]) -> Acc:
             acc.notes['systems_built'] = acc.notes.get('systems_built', 0) + info['orders_run']
             judge(ID, acc, dict(proj, kind='gen'), d)
         hyp_run(acc, rexproj.projects(cycles=True, star_consumers=True), body, item['n'], item['seed'])
+    elif item['kind'] == 'cycshadow':
+        for c in cycshadow_cases():
+            d, info = check_files(c['files'], True, False, False)
+            acc.case(key=c['name'], nontrivial=info['orders_run'] >= 2, sample={'cycle_with_shadowed_base': c['name'], 'orders_run': info['orders_run']}, classes=['cycle-shadowed-base', 'cyclic'])
+            acc.notes['systems_built'] = acc.notes.get('systems_built', 0) + info['orders_run']
+            try:
+                judge(ID, acc, c, d)
+            except Violation as v:
+                acc.violations.append(v.as_dict())
+                break
     else:
         from .. import findings
         for c in real_cases():
@@ -193,6 +227,8 @@ def work(item: Dict[str, Any]) -> Acc:
 
 
 def replay(case: Dict[str, Any]) -> List[Tuple[str, str]]:
+    if case.get('kind') == 'cycshadow':
+        return check_files(case['files'], True, False, False)[0]
     if case.get('kind') == 'real':
         return check_files(case['files'], 'cyclic' in case['name'], False, False)[0]
     files, cyclic, stale, soc, roc = project_case(case)
